@@ -113,6 +113,12 @@ def boundary_cases():
             v = ("E", "only")
         out.append((wide, v, {"wide_union", "wide_union_idx_%d" % idx}))
         out.append(({"type": "array", "items": wide}, [v, v], {"wide_union"}))
+    # values longer than any internal read chunk (64 KiB), alone and as the last thing encoded
+    for n in (65536, 65537, 70001):
+        out.append(("string", "s" * n, {"long_value", "boundary_string"}))
+        out.append(("bytes", bytes(range(256)) * (n // 256) + b"\x00" * (n % 256), {"long_value", "boundary_bytes"}))
+    out.append(({"type": "record", "name": "Tail", "fields": [{"name": "n", "type": "long"}, {"name": "note", "type": "string"}]},
+                {"n": 5, "note": "\u00e9" * 40000}, {"long_value"}))
     # fixed of size 0 and enum extremes
     out.append(({"type": "fixed", "name": "Z", "size": 0}, b"", {"fixed_zero"}))
     out.append(({"type": "enum", "name": "E", "symbols": ["A", "B", "C"]}, "C", {"enum_last"}))
